@@ -276,6 +276,13 @@ impl StreamsState {
         };
 
         if !rs.is_receiving() {
+            // The final size fixed by the reset still binds the peer
+            if let Some(final_offset) = rs.final_offset() {
+                let end = frame.offset.saturating_add(frame.data.len() as u64);
+                if end > final_offset || (frame.fin && end != final_offset) {
+                    return Err(TransportError::FINAL_SIZE_ERROR("inconsistent with reset"));
+                }
+            }
             trace!("dropping frame for finished stream");
             return Ok(ShouldTransmit(false));
         }
